@@ -50,7 +50,6 @@ impl C11 {
                 return false;
             }
         };
-        let size = exp.len() - if widen { 1 } else { 0 };
         ctx.phase("verdict: zstd wrappers");
         let c = match cur::zstd_compress(f) {
             Out::Ok(c) => c,
@@ -66,6 +65,16 @@ impl C11 {
                 return true;
             }
         };
+        // the boundary: size of the intermediate form inside this very frame, read with the harness's own
+        // zstd (equals |expand(F)| whenever the library is deterministic, which is C14's verdict, not ours)
+        let inner = match zstd::stream::decode_all(&c[..]) {
+            Ok(v) => v.len(),
+            Err(_) => exp.len(),
+        };
+        if inner != exp.len() {
+            ctx.count("frame_content_differs_in_size_from_a_second_expansion");
+        }
+        let size = inner - if widen { 1 } else { 0 };
         let mut bad = false;
         let k = 1 + r.usize_below(65536);
         let mut caps = vec![0usize, 1, size.saturating_sub(1), size, size + 1, size + k, 2 * size, size / 2];
